@@ -93,7 +93,7 @@ class Gen:
             return self.loop(d, sc)
         if r < 0.93:
             return self.snapshot(d, sc, tail) if not sc.arg else self.leaf(sc)
-        if r < 0.97:
+        if r < 0.96:
             a = self.fresh("a")
             return f"((fn* [{a}] {self.expr(d - 1, sc.child([a], loop=None, arg=False))}) {self.expr(d - 1, sc.as_arg())})"
         return self.redef(d, sc, tail) if not sc.arg else self.leaf(sc)
@@ -203,6 +203,11 @@ class Gen:
         """(def g <expr>) in statement position, then more code that reads g and any snapshot taken earlier"""
         g = self.pick(["g0", "g1"])
         self.features.add("redef")
+        if self.rnd.random() < 0.4:
+            # the same Var def'd in this function and again in a function nested in it (run last): reads must see the nested def's value
+            self.features.add("nested-redef")
+            return (f"(do (def {g} {self.expr(min(d - 1, 1), sc)}) ((fn* [] (def {g} {self.expr(min(d - 1, 1), sc.child(loop=None, arg=False))}) nil)) "
+                    f"[{g} {self.expr(d - 1, sc.as_arg())}])")
         return f"(do (def {g} {self.expr(d - 1, sc)}) {self.expr(d - 1, sc, tail)})"
 
 
@@ -217,6 +222,24 @@ def generate(seed: int, count: int, depth: int = 3, max_len: int = 420):
         body = g.expr(depth, Scope(["g0", "g1"], []))
         if len(body) > max_len or len(body) < 25 or body in seen or not (g.features & {"alias-init", "loop", "try", "closure", "redef", "snapshot-then-rebind"}):
             continue
+        seen.add(body)
+        out.append((f"gen{len(out):03d}", f"(fn* [p0 p1 p2] {body})", sorted(g.features)))
+    # stratify: every production aimed at a semantic rule is represented at least `floor` times, whatever the seed
+    must = ["snapshot-then-rebind", "loop-snapshot-read-in-finally", "nested-redef", "closure-call", "recur-in-try", "redef", "throw"]
+    floor = max(3, count // 16)
+    tries = 0
+    while tries < 20000:
+        have = {m: sum(1 for _, _, f in out if m in f) for m in must}
+        lacking = [m for m in must if have[m] < floor]
+        if not lacking:
+            break
+        tries += 1
+        g = Gen(rnd)
+        body = g.expr(depth, Scope(["g0", "g1"], []))
+        if len(body) > max_len or len(body) < 25 or body in seen or not (g.features & set(lacking)):
+            continue
+        if "finally-reads-rebound-loop-local" in g.features:
+            continue            # the recorded finding's zone adds nothing to the floor
         seen.add(body)
         out.append((f"gen{len(out):03d}", f"(fn* [p0 p1 p2] {body})", sorted(g.features)))
     return out
